@@ -246,6 +246,12 @@ def eval_case_inner(ctx, exe, case, status_of, deep=True):
         # formula on the next read, which drops the zero-valued counter-ion entries → one more cycle
         if diff and all(under_tied(k, p) and "/totals/" in p and float(e2[k].get(p, "0")) == 0.0 for k, p in diff):
             res["sig"].append(("exchange-on-empty-phase-two-cycles", f"third dump differs from the second: {diff[:4]}"))
+        elif diff and all(under_tied(k, p) and "/totals/" in p for k, p in diff):
+            # update_min/kin_exchange multiplies the tied component by (phase moles × proportion) / (site total) at every read; with the
+            # 14-digit text the factor is 1 ± 1e-14, so the last digit keeps drifting: the text never becomes stationary
+            k, p = diff[0]
+            res["sig"].append(("tied-exchanger-rederived", f"third dump differs from the second (rescaled again): {k} {p}: "
+                               f"{e2[k].get(p)} → {e3.get(k, {}).get(p)}"))
         else:
             res["problems"].append(("not-fixed", f"dump text still changes in the second cycle: {diff[:5] or 'layout'}"))
     # model correspondence: where first and second dump differ, the model must call the key dropped
